@@ -2,6 +2,7 @@
   C17 — decomposing a vector into raw parts and rebuilding it is lossless.
 -/
 import AnyVecModel.Proofs.Exec
+import AnyVecModel.Proofs.KernelRawParts
 namespace AnyVec
 namespace C17
 open World
@@ -48,6 +49,32 @@ def sampleVec : VecSt :=
   { ty := 3, size := 8, align := 8, hasDrop := true, cloneable := true, bk := .heap, cap := 4,
     cells := [.val 10, .val 11], len := 2, gen := 5, live := true }
 example : sampleVec.intoRawParts.clone.len = 2 ∧ sampleVec.intoRawParts.clone.capacity = 4 := by decide
+
+/-- **source tie**: decomposition and reconstruction as the source has them on this run (field tables re-translated from
+`/repo/src/any_vec.rs` and `/repo/src/mem/heap.rs`): `into_raw_parts` runs no destructor (`ManuallyDrop`) and reads
+capacity, handle and layout off the storage and `len`, type id, destructor and clone function off the vector;
+`from_raw_parts` hands handle, layout and **capacity** back to the storage and restores the rest; `RawParts::clone`
+copies every field; the model's round trip is the identity. -/
+theorem raw_parts_are_the_source (v : VecSt) (hl : v.live = true) :
+    (Gen.Kernel.anyvec_from_raw_parts_fields =
+      [("raw.mem_builder", "raw_parts.mem_builder"),
+       ("raw.mem", "MemRawParts::from_raw_parts(raw_parts.mem_handle,raw_parts.element_layout,raw_parts.capacity)"),
+       ("raw.len", "raw_parts.len"), ("raw.type_id", "raw_parts.element_typeid"),
+       ("raw.drop_fn", "raw_parts.element_drop"), ("clone_fn", "<Traits as CloneType>::new(raw_parts.element_clone)"),
+       ("phantom", "PhantomData")] ∧
+     Gen.Kernel.heapmem_from_raw_parts_fields = [("mem", "handle"), ("size", "size"), ("element_layout", "element_layout")] ∧
+     Gen.Kernel.heapmem_into_raw_parts_text =
+       "let this = ManuallyDrop :: new ( self ) ; ( this . mem , this . element_layout , this . size )") ∧
+    VecSt.fromRawParts v.intoRawParts = v ∧ VecSt.fromRawParts v.intoRawParts.clone = v ∧
+    v.intoRawParts.capacity = v.cap ∧ v.intoRawParts.len = v.len :=
+  ⟨⟨KernelTie.raw_parts_tie.2.1, KernelTie.raw_parts_tie.2.2.2.1, KernelTie.raw_parts_tie.2.2.2.2.2⟩,
+   KernelTie.raw_parts_model v hl⟩
+
+/-- the remaining tables of the tie (`into_raw_parts` of the vector, `RawParts::clone`, `Heap::build`) -/
+theorem raw_parts_tables_are_the_source :
+    Gen.Kernel.anyvec_into_raw_parts_fields.length = 12 ∧ Gen.Kernel.raw_parts_clone_fields.length = 8 ∧
+    Gen.Kernel.heap_build_fields = [("mem", "dangling(&element_layout)"), ("size", "0"), ("element_layout", "element_layout")] :=
+  ⟨by rw [KernelTie.raw_parts_tie.1]; rfl, by rw [KernelTie.raw_parts_tie.2.2.1]; rfl, KernelTie.raw_parts_tie.2.2.2.2.1⟩
 
 end C17
 end AnyVec
